@@ -183,4 +183,31 @@ theorem inv_mk {s s' : State} {a kind dt it n : Nat} {v : Int} (hi : Inv s)
           List.count_append, List.count_nil, Bool.false_eq_true, if_false]
         omega
 
+theorem inv_copy {s s' : State} {a b full : Nat} (hi : Inv s) (h : step s (.copy a b full) = .ok s') : Inv s' := by
+  unfold step at h
+  simp only at h
+  split at h
+  · rename_i ca cb hsa hsb
+    split at h
+    · cases h
+    · split at h
+      · injection h with h; subst h; exact hi
+      · split at h
+        · cases h
+        · split at h
+          · cases h
+          · injection h with h; subst h
+            obtain ⟨d1, p1⟩ := delta_copyArrs (if full != 0 then (ca.inds.zip (cb.inds.zip ca.indsSize)) else []) s.pool hi.1
+            obtain ⟨d2, p2⟩ := delta_copyArrs (ca.elems.zip (cb.elems.zip ca.elemsSize)) _ p1
+            refine inv_setSlot hi (slot_lt hsa) ?_ p2
+            intro j
+            have := d1 j; have := d2 j
+            rw [hsa]
+            have e : optIds (some (if full != 0 then { ca with sidx := cb.sidx } else ca)) = optIds (some ca) := by
+              split <;> rfl
+            rw [e]
+            simp only [List.count_nil] at *
+            omega
+  · cases h
+
 end FeatModel.Pool
